@@ -424,7 +424,7 @@ def jobs(tier: str):
     out = []
     shapes = [[], [(0, 0)], [(1, 0)], [(0, 1)], [(1, 1)], [(2, 1)], [(1, 2)], [(1, 1), (1, 1)], [(1, 0), (1, 1)], [(0, 1), (1, 0)]]
     if tier == "thorough":
-        shapes += [[(2, 2)], [(1, 1), (1, 1), (1, 1)], [(2, 1), (2, 1)], [(1, 3)]]
+        shapes += [[(2, 2)], [(1, 0), (1, 0), (1, 1)], [(2, 0), (2, 1)], [(1, 3)]]  # at most 5 symbolic characters per job (9 classes each)
     for sh in shapes:
         out.append(dict(name="roundtrip/" + ("+".join(f"k{a}v{b}" for a, b in sh) or "empty"), kind="roundtrip", shape=sh, weight=8 ** sum(a + b for a, b in sh)))
     out.append(dict(name="twin/roundtrip", kind="roundtrip", shape=[(1, 1)], twin=True))
